@@ -356,7 +356,19 @@ class Flow:
         facts = []
         if t and "cond" in t and t["cond"] >= 0:
             if t["cls"] in BRANCH_TERMS and len(blk["succ"]) == 2:
-                facts = self.cn.decompose(t["cond"], j == 0)
+                pol = (j == 0)
+                facts = self.cn.decompose(t["cond"], pol)
+                # the value of the whole (short-circuited) condition, where this edge decides it
+                st = t.get("stmt", -1)
+                if st is not None and st >= 0:
+                    sn = f.nodes[st]
+                    if t["cls"] == "BinaryOperator" and sn["k"] == "bin":
+                        if (sn["op"] == "||" and pol) or (sn["op"] == "&&" and not pol):
+                            facts = facts + [self.cn._fact(st, pol)]
+                    elif sn["k"] in ("if", "while", "for", "do", "cond") and "c" in sn:
+                        full = f.strip(sn["c"])
+                        if full != f.strip(t["cond"]):
+                            facts = facts + [x for x in self.cn.decompose(full, pol) if x not in facts]
             elif t["cls"] == "SwitchStmt":
                 s = blk["succ"][j]
                 tgt = s if isinstance(s, int) else None
